@@ -62,6 +62,9 @@ def step (op : String) (gs : List (List Int)) : String :=
     match C04.genOf gid with
     | some g => okG [[numLow g cols.toNat { cfNum := cn.toNat, cfDen := cd.toNat, accNum := an.toNat, accDen := ad.toNat, radii := [] }]]
     | none => "err BadOp"
+  -- `disc_probe rows cols radius | x0 y0 x1 y1 …`: `centered_disk_mask` at single cells (large k-space sizes)
+  | "disc_probe", [[rows, cols, radius], cells] =>
+    okG [(chunksOf 2 cells).map fun c => b2i (inDisk rows.toNat cols.toNat radius (c.getD 0 0).toNat (c.getD 1 0).toNat)]
   -- `fl53 num den`: the binary64 nearest to num / den, and Python's round / int of it
   | "fl53", [[num, den]] =>
     let p := fl53 num.toNat den.toNat
